@@ -39,7 +39,7 @@ fn scan(text: &str, out: &mut BTreeSet<String>) {
             }
             if !lit.is_empty() && lit.chars().count() <= 24 && !lit.contains('\u{1e}') {
                 out.insert(lit.clone());
-                for w in lit.split(|x: char| x.is_whitespace() || x == '(' || x == ')') {
+                for w in lit.split(|x: char| x.is_whitespace() || x == '(' || x == ')' || x == '"') {
                     if !w.is_empty() && w.len() <= 16 {
                         out.insert(w.to_string());
                     }
@@ -70,7 +70,7 @@ pub fn tokens() -> Vec<String> {
     CELL.get_or_init(|| {
         let mut set = BTreeSet::new();
         let mut files = vec![];
-        rust_files(std::path::Path::new("/repo/src"), &mut files);
+        rust_files(std::path::Path::new(&crate::util::repo_src()), &mut files);
         for f in files {
             if let Ok(t) = std::fs::read_to_string(&f) {
                 // the unit tests at the end of the files are not part of the generator
@@ -100,6 +100,18 @@ pub fn words() -> Vec<String> {
         set.insert(w.to_string());
     }
     set.into_iter().collect()
+}
+
+/// dictionary tokens usable as name/path patterns of a command line: representable as an
+/// argument word, no backslash (an fnmatch escape), no control character
+pub fn names() -> Vec<String> {
+    let mut v: Vec<String> = tokens()
+        .into_iter()
+        .filter(|t| !t.contains('\\') && !t.chars().any(|c| c.is_control()) && crate::render::representable(t) && !t.starts_with('-') && t.trim() == t)
+        .collect();
+    v.sort();
+    v.dedup();
+    v
 }
 
 /// dictionary tokens that look like file-system paths (plus the classic special files)
